@@ -6,7 +6,7 @@ WT=/tmp/wt_mut_$$
 git -C /repo worktree add -q --detach $WT HEAD || exit 3
 if ! git -C $WT apply "$PATCH"; then echo "PATCH DOES NOT APPLY"; git -C /repo worktree remove --force $WT; exit 3; fi
 cd /verif
-VERIF_REPO=$WT timeout 3000 /venv/bin/python run.py $PROP --tier $TIER 2>&1 | grep -v "^  \|^DETAIL" | tail -6
+VERIF_EVIDENCE_DIR=/tmp/ev_scratch VERIF_FOUND_DIR=/tmp/found_scratch VERIF_REPO=$WT timeout 3000 /venv/bin/python run.py $PROP --tier $TIER 2>&1 | grep -v "^  \|^DETAIL" | tail -6
 rc=${PIPESTATUS[0]}
 git -C /repo worktree remove --force $WT
 git -C /repo worktree prune
